@@ -13,11 +13,11 @@ Import ListNotations.
 
 (* What the two places that take a command off the queue without running it
    (process() for a queued jobs-submit while stopping; terminate() for every
-   queued command) do with its callback.  The code that exists sets
-   ret_code 999 and calls _run_command_exit(ctx) WITHOUT the callbacks
-   (false).  The proposed fix (proposed_fixes/C42-dropped-callbacks.diff)
-   passes them, as put_command already does (true). *)
-Definition drops_call_back : bool := false.
+   queued command) do with its callback.  The code now (fix 2237225) passes the
+   callbacks to _run_command_exit, as put_command always did (true).  Before
+   that fix it set ret_code 999 and called _run_command_exit(ctx) WITHOUT the
+   callbacks (false): theorems about `false` describe the pre-fix code only. *)
+Definition drops_call_back : bool := true.
 
 Record cmd := {
   c_id : nat;
